@@ -290,45 +290,58 @@ class TraceLoader(SourceFileLoader):
             pickle_path = os.path.splitext(cache_path)[0] + ".pkl"
             tracer = self._tracers[-1]
         should_reenable_saved_state.reverse()
-        if pickle_path is not None and tracer is not None:
-            # the pickled node table belongs to the cached bytecode: find out first whether the code
-            # comes from the cache or is compiled now (stale or missing cache)
-            self._rewrote_source = False
-            code = self.get_code(module.__name__)
-            # True: compiled now, and the bytecode cache entry (re)written if that is possible at all
-            table_is_fresh = self._rewrote_source
-            if not table_is_fresh and not os.path.exists(pickle_path):
-                # cached bytecode without its node table: do not use it
-                code = self.source_to_code(self.get_data(source_path), source_path)
-                self._register_guards(code)
-            elif not table_is_fresh:
-                # read the pickled bookkeeping and use it to update ast bookkeeping / remapping
-                assert source_path not in tracer.ast_bookkeeper_by_fname
-                with open(pickle_path, "rb") as f:
-                    new_bookkeeping, remapping = pickle.load(f).remap(id(module))
-                tracer.add_bookkeeping(new_bookkeeping, id(module))
-                tracer.node_id_remapping_by_fname[source_path] = remapping
-            if code is not None:
-                self._code_for_exec = (module.__name__, code)
-        super().exec_module(module)
-        if (
-            pickle_path is not None
-            and tracer is not None
-            and table_is_fresh
-            and not sys.dont_write_bytecode
-        ):
-            # like the bytecode, the node table is only a cache: where it cannot be written, go without
-            try:
-                with open(pickle_path, "wb") as f:
-                    pickle.dump(tracer.ast_bookkeeper_by_fname[source_path], f)
-            except OSError:
-                pass
-        for tracer, should_reenable in zip(self._tracers, should_reenable_saved_state):
-            tracer._emit_event(
-                TraceEvent.after_import.value, None, sys._getframe(), module=module
-            )
-            if should_reenable:
-                tracer._enable_tracing()
+        num_handled = 0
+        try:
+            if pickle_path is not None and tracer is not None:
+                # the pickled node table belongs to the cached bytecode: find out first whether the code
+                # comes from the cache or is compiled now (stale or missing cache)
+                self._rewrote_source = False
+                code = self.get_code(module.__name__)
+                # True: compiled now, and the bytecode cache entry (re)written if that is possible at all
+                table_is_fresh = self._rewrote_source
+                if not table_is_fresh and not os.path.exists(pickle_path):
+                    # cached bytecode without its node table: do not use it
+                    code = self.source_to_code(self.get_data(source_path), source_path)
+                    self._register_guards(code)
+                elif not table_is_fresh:
+                    # read the pickled bookkeeping and use it to update ast bookkeeping / remapping
+                    assert source_path not in tracer.ast_bookkeeper_by_fname
+                    with open(pickle_path, "rb") as f:
+                        new_bookkeeping, remapping = pickle.load(f).remap(id(module))
+                    tracer.add_bookkeeping(new_bookkeeping, id(module))
+                    tracer.node_id_remapping_by_fname[source_path] = remapping
+                if code is not None:
+                    self._code_for_exec = (module.__name__, code)
+            super().exec_module(module)
+            if (
+                pickle_path is not None
+                and tracer is not None
+                and table_is_fresh
+                and not sys.dont_write_bytecode
+            ):
+                # like the bytecode, the node table is only a cache: where it cannot be written, go without
+                try:
+                    with open(pickle_path, "wb") as f:
+                        pickle.dump(tracer.ast_bookkeeper_by_fname[source_path], f)
+                except OSError:
+                    pass
+            for tracer, should_reenable in zip(
+                self._tracers, should_reenable_saved_state
+            ):
+                tracer._emit_event(
+                    TraceEvent.after_import.value, None, sys._getframe(), module=module
+                )
+                num_handled += 1
+                if should_reenable:
+                    tracer._enable_tracing()
+        finally:
+            # the module body (or its compilation) may raise: the tracers switched off above
+            # must not stay off for the rest of their tracing context
+            for tracer, should_reenable in list(
+                zip(self._tracers, should_reenable_saved_state)
+            )[num_handled:]:
+                if should_reenable:
+                    tracer._enable_tracing()
 
 
 # this is based on the birdseye finder (which uses import hooks based on MacroPy's):
